@@ -5,8 +5,10 @@ package main
 
 import (
 	"bytes"
+	"crypto/sha256"
 	"fmt"
 	"math/big"
+	"sort"
 	"strconv"
 	"strings"
 
@@ -335,6 +337,25 @@ func (w *World) Exec(line string) string {
 		}
 		return "ok"
 	}
+	if f[0] == "addbinding" {
+		if len(f) != 6 {
+			return bad
+		}
+		nameB, ok0 := bytesOf(f[1])
+		bind, ok1 := addrOf(f[2])
+		ct, ok2 := addrOf(f[3])
+		pos, ok3 := u64Of(f[4])
+		dec, ok4 := u64Of(f[5])
+		if !ok0 || !ok1 || !ok2 || !ok3 || !ok4 || !strings.HasPrefix(string(nameB), "bind") {
+			return bad // names outside "bind*" could re-route FT ops of the script (or the process-wide balance token)
+		}
+		name := string(nameB)
+		sum := sha256.Sum256([]byte("erc20-" + name)) // independent of common.GenerateERC20Binding
+		if common.GenerateERC20Binding(name) != bind || common.BytesToAddress(sum[:]) != bind {
+			return bad
+		}
+		return b2s(s.AddERC20Binding(name, ct, pos, dec))
+	}
 	// everything below starts with an address
 	if len(f) < 2 {
 		return bad
@@ -422,6 +443,9 @@ func (w *World) Exec(line string) string {
 			}
 			return "ok"
 		case "subbal":
+			if n.Sign() == 0 { // the SubBalance wrapper itself (a zero debit always succeeds)
+				return s.SubBalance(a, n).String() + " true"
+			}
 			left, ok := s.SubFT(a, common.BLANCE_NAME, n)
 			return left.String() + " " + b2s(ok)
 		case "setbal":
@@ -467,6 +491,42 @@ func (w *World) Exec(line string) string {
 			s.SetFT(a, name, n)
 			return "ok"
 		}
+	case "allrefund":
+		if len(f) != 2 {
+			return bad
+		}
+		m := s.GetAllRefund(a)
+		if len(m) == 0 {
+			return "-"
+		}
+		var ks []string
+		for k := range m {
+			ks = append(ks, string(k[:]))
+		}
+		sort.Strings(ks)
+		var parts []string
+		for _, k := range ks {
+			parts = append(parts, hx.Hex([]byte(k))+"="+m[common.BytesToAddress([]byte(k))].String())
+		}
+		return strings.Join(parts, ",")
+	case "setstorage":
+		if len(f)%2 != 0 {
+			return bad
+		}
+		st := map[common.Hash]common.Hash{}
+		for i := 2; i < len(f); i += 2 {
+			k, ok1 := hashOf(f[i])
+			v, ok2 := hashOf(f[i+1])
+			if !ok1 || !ok2 {
+				return bad
+			}
+			if _, dup := st[k]; dup {
+				return bad
+			}
+			st[k] = v
+		}
+		s.SetStorage(a, st)
+		return "ok"
 	case "getft":
 		if len(f) != 3 {
 			return bad
